@@ -8,7 +8,7 @@ META = {
     "level_note": "Proved: the byte-level contract of the model (which keeps addresses, so address independence is a theorem, not a by-construction fact). Only observed (h_mem, this run's counts are in coverage.configurations): every API of the 7 ChaCha types (apply_keystream, new(key), new(nonce)), update and finalize_into of the 15 hash types, Threefish-256/512/1024 encrypt_block/decrypt_block/new(key), StoreBytes read_le/read_be/write_le/write_be of all 10 vector types on the SSE2/SSSE3/SSE4.1(AVX)/AVX2 machines (the 5 the Machine bounds promise + u64x2, u128x1, u64x2x4, u128x2, u128x4) and of the 7 that have it on the portable machine, each on a slice starting a bytes after the first / ending a bytes before the last mapped byte (a = 0..63; a = 0 abuts a PROT_NONE page) at every length class, plus a sweep of 64 consecutive lengths per class at a = 0 so that the free end takes every alignment; result, slice content, ok/panic outcome equal to the aligned-buffer run; canary outside the slice intact; signals reported per case. Groestl's AES-NI/SSSE3/SSE2 choice cannot be forced without a hook (host choice only). Tie model <-> code: a sample of cases (memory window before/after) is recomputed by Run/SliceApi.v with oracle bytes from the aligned run.",
     "rule": "case = (API, placement head|tail, a in 0..63, length, pre-state code); distinct = distinct tuples; non-trivial = length > 0; "
             "lengths (quick): 19 classes 0..1024 at every a, sweeps of 64 consecutive lengths at 7 bases (a = 0, both placements), the large classes 2048 / 4096 / 4097 "
-            "(span a page / cross the inner page boundary) at a in {0,1,15,16,31,32,33,63}, and a sweep 4032..4095 ending at the last mapped byte; wrong lengths for fixed-size APIs; "
+            "(span a page / cross the inner page boundary) at a in {0,1,15,16,31,32,33,63}, a sweep 4032..4095 ending at the last mapped byte, and 8192 / 16385 / 65536 (variable-length APIs, slice ending a = 0, 1, 63 bytes before the unmapped page, in a second arena of 17 pages); wrong lengths for fixed-size APIs; "
             "configurations (quick): host dispatch debug + release (all families), hook H1 forced to SSE2 and to SSE4.1 in release (ChaCha family; a failed `h1` build is a reported problem), "
             "portable (no_simd) release; thorough: H1 levels 1..5 (chacha, hash) and longer lengths; "
             "each case: guarded run vs aligned-heap run of the same implementation (direct_failures = violations with the placement as replay); a sample of <= 480 cases (<= 160 on the forced "
